@@ -63,3 +63,40 @@ pub fn is_budget_payload(payload: &Box<dyn std::any::Any + Send>) -> bool {
         false
     }
 }
+
+/// Engine-level observation: the constructor skeleton of a stream (states shown by their trail,
+/// goals omitted).  Installed as observer of `verif::engine_event` by solver-mode cases that ask
+/// for it; the judge validates the sequence of skeletons against `Search.tla` step by step.
+pub mod skel {
+    use crate::user::VU;
+    use crate::E;
+    use proto_vulcan::state::State;
+    use proto_vulcan::stream::{Lazy, LazyStream, Stream};
+    use serde_json::{json, Value};
+
+    fn st(s: &State<VU, E>) -> Value {
+        json!(s.user_state.trail)
+    }
+
+    pub fn lazy(l: &LazyStream<VU, E>) -> Value {
+        match &*l.0 {
+            Lazy::Bind(a, _) => json!(["bind", lazy(a)]),
+            Lazy::MPlus(a, b) => json!(["mplus", lazy(a), lazy(b)]),
+            Lazy::Pause(s, _) => json!(["pause", st(s)]),
+            Lazy::BindDFS(a, _) => json!(["bindD", lazy(a)]),
+            Lazy::MPlusDFS(a, b) => json!(["mplusD", lazy(a), lazy(b)]),
+            Lazy::PauseDFS(s, _) => json!(["pauseD", st(s)]),
+            Lazy::Delay(s) => json!(["delay", stream(s)]),
+            Lazy::Iterator(_) => json!(["iterator"]),
+        }
+    }
+
+    pub fn stream(s: &Stream<VU, E>) -> Value {
+        match s {
+            Stream::Empty => json!(["empty"]),
+            Stream::Unit(a) => json!(["unit", st(a)]),
+            Stream::Lazy(l) => json!(["lazy", lazy(l)]),
+            Stream::Cons(a, l) => json!(["cons", st(a), lazy(l)]),
+        }
+    }
+}
